@@ -83,7 +83,8 @@ func Load(repo string, env []string) (*Prog, error) {
 			// instantiations share a key with their generic origin; the origin represents the key
 			if old, ok := p.funcs[k]; ok {
 				oldInst, newInst := len(old.TypeArgs()) > 0, len(fn.TypeArgs()) > 0
-				if old.Blocks != nil && (fn.Blocks == nil || (!oldInst && newInst) || (oldInst == newInst && old.String() <= fn.String())) {
+				oldSyn, newSyn := old.Synthetic != "", fn.Synthetic != ""
+				if old.Blocks != nil && (fn.Blocks == nil || (!oldSyn && newSyn) || (oldSyn == newSyn && ((!oldInst && newInst) || (oldInst == newInst && old.String() <= fn.String())))) {
 					continue
 				}
 			}
